@@ -233,6 +233,52 @@ def run_case(case):
 
         mesh = base
         a = mesh.areas
+        # --- the potential-independent operators the solver actually uses, and its factorised Poisson solve
+        fixed = np.asarray(mesh.boundary_indices[:3], dtype=np.int64)
+        for fx in (None, fixed):
+            ops0 = MeshOperators(mesh, SparseSolver.SUPERLU, fixed_sites=fx)
+            ops0.build_operators()
+            L0 = build_laplacian(mesh)[0].toarray()
+            for nm, got, want in (("mu_laplacian", ops0.mu_laplacian.toarray(), L0), ("divergence", ops0.divergence.toarray(), build_divergence(mesh).toarray()),
+                                  ("mu_gradient", ops0.mu_gradient.toarray(), build_gradient(mesh).toarray()),
+                                  ("mu_boundary_laplacian", ops0.mu_boundary_laplacian.toarray(), build_neumann_boundary_laplacian(mesh).toarray())):
+                if rel(got - want, want) > tol:
+                    res.violate("solver-operator-differs-from-builder", operator=nm, detail=det)
+            # Poisson solve: for a compatible right-hand side (area-weighted mean zero) the factorised solve satisfies L mu = rhs
+            try:
+                rhs = rng.normal(size=n)
+                rhs -= (a @ rhs) / a.sum()
+                mu = ops0.mu_laplacian_lu(rhs)
+                e9 = rel(L0 @ mu - rhs, rhs)
+                res.residual("poisson_solve", e9)
+                if e9 > 1e-8:
+                    res.violate("factorised-poisson-solve-does-not-solve", detail=dict(det, rel=e9))
+            except RuntimeError as exc:
+                if "singular" not in str(exc):
+                    raise
+                res.count("singular_factor")
+        # --- optional arguments of the builders: custom weights, pinned rows with a given eigenvalue, zeroed boundary rows
+        wcustom = mesh.edge_mesh.dual_edge_lengths / mesh.edge_mesh.edge_lengths * 1.7
+        Lw = build_laplacian(mesh, weights=wcustom)[0].toarray()
+        if rel(Lw - 1.7 * build_laplacian(mesh)[0].toarray(), Lw) > tol:
+            res.violate("custom-weights-ignored-or-misapplied", operator="laplacian", detail=det)
+        Gw = build_gradient(mesh, weights=2.0 / mesh.edge_mesh.edge_lengths).toarray()
+        if rel(Gw - 2.0 * build_gradient(mesh).toarray(), Gw) > tol:
+            res.violate("custom-weights-ignored-or-misapplied", operator="gradient", detail=det)
+        for ev in (1.0, -3.5):
+            Lf, free = build_laplacian(mesh, link_exponents=A_set["lin"], fixed_sites=fixed, fixed_sites_eigenvalues=ev)
+            Lf = Lf.toarray()
+            Lfree = build_laplacian(mesh, link_exponents=A_set["lin"])[0].toarray()
+            want = Lfree.copy()
+            want[fixed, :] = 0
+            want[fixed, fixed] = ev
+            if rel(Lf - want, want) > tol:
+                res.violate("pinned-rows-are-not-identity-rows", eigenvalue=ev, detail=det)
+        Bz = build_neumann_boundary_laplacian(mesh, fixed_sites=fixed).toarray()
+        Bw = build_neumann_boundary_laplacian(mesh).toarray()
+        Bw[fixed, :] = 0
+        if rel(Bz - Bw, Bw) > tol:
+            res.violate("boundary-operator-fixed-rows", detail=det)
         half = A_set["uni"].copy()
         half[m // 2 :] = A_set["lin"][m // 2 :]
         one = A_set["rnd"].copy()
